@@ -19,7 +19,7 @@ func init() {
 
 func (c10) ID() string { return "C10" }
 
-const c10Variants = 6
+const c10Variants = 8
 
 var c10Programs = []string{
 	"a && b\n", "a || b\n", "case x in a) b;; esac\n", "a >>f\n", "a >|f\n", "a <<E\nb\nE\n", "a <<-E\n\tb\nE\n", "a <>f\n", "a <&3\n", "a >&2\n", "((x))\n", "$((1))\n",
@@ -79,6 +79,10 @@ func (p c10) Gen(seed uint64, tier string, idx int) (*Case, bool) {
 		}
 	}
 	c.Reader = c10Variant(v, uint64(idx))
+	// the shape of the injected error rotates per program: plain, wrapping io.EOF, wrapping io.ErrUnexpectedEOF
+	if c.Reader.FaultKind != "zero-progress" {
+		c.Reader.ErrKind = []string{"", "wraps-eof", "", "unexpected-eof"}[pi%4]
+	}
 	return c, true
 }
 
@@ -94,8 +98,13 @@ func c10Variant(v int, salt uint64) gosim.ReaderPlan {
 		return gosim.ReaderPlan{Kind: "reader", FaultAt: -2, FaultKind: "persistent", Chunk: []int{0, 1, 2, -1}[salt/6%4], ChunkSeed: salt, DataErr: salt/24%2 == 0}
 	case 4:
 		return gosim.ReaderPlan{Kind: "reader", FaultAt: -2, FaultKind: "transient", Chunk: []int{0, 1, 3, -1}[salt/6%4], ChunkSeed: salt, DataErr: salt/24%2 == 1}
-	default:
+	case 5:
 		return gosim.ReaderPlan{Kind: "reader", FaultAt: -2, FaultKind: "zero-progress", Chunk: []int{0, 1}[salt/6%2]}
+	case 6:
+		// count-based: the n-th ReadRune call fails wherever the reader stands (e.g. the re-read after UnreadRune)
+		return gosim.ReaderPlan{Kind: "scanner", FaultAt: -1, FaultCall: -2, FaultKind: "persistent"}
+	default:
+		return gosim.ReaderPlan{Kind: "scanner", FaultAt: -1, FaultCall: -2, FaultKind: "transient", Unread: []string{"", "multi"}[salt/8%2]}
 	}
 }
 
@@ -115,6 +124,7 @@ type c10Sub struct {
 
 type c10Live struct {
 	Subs    []c10Sub
+	Reads   int  // ReadRune calls of the fault-free run
 	Extent  int  // bytes the fault-free run consumed
 	ReadEOF bool // the fault-free run read EOF
 	FreeErr bool
@@ -138,9 +148,13 @@ func (p c10) positions(c *Case) []int {
 }
 
 func (p c10) Run(t *testing.T, c *Case, s Sched, keepLog bool) *Obs {
-	if c.Reader.FaultAt != -2 {
+	if c.Reader.FaultAt != -2 && c.Reader.FaultCall != -2 {
 		o := RunParse(t, c, s, keepLog)
-		live := &c10Live{Subs: []c10Sub{{K: c.Reader.FaultAt, Obs: o}}}
+		k := c.Reader.FaultAt
+		if c.Reader.FaultCall > 0 {
+			k = c.Reader.FaultCall
+		}
+		live := &c10Live{Subs: []c10Sub{{K: k, Obs: o}}}
 		p.reference(t, c, s, live)
 		o2 := *o
 		o2.Live = live
@@ -152,15 +166,30 @@ func (p c10) Run(t *testing.T, c *Case, s Sched, keepLog bool) *Obs {
 	p.reference(t, c, s, live)
 	h := uint64(0)
 	kindName := c.Reader.Kind + "/" + c.Reader.FaultKind
+	if c.Reader.ErrKind != "" {
+		kindName += "/" + c.Reader.ErrKind
+	}
 	if c.Reader.DataErr {
 		kindName += "+data"
 	}
 	if c.Reader.Unread == "multi" {
 		kindName += "/multi-unread"
 	}
-	for _, k := range p.positions(c) {
+	positions := p.positions(c)
+	if c.Reader.FaultCall == -2 {
+		positions = nil
+		for n := 1; n <= live.Reads+1; n++ {
+			positions = append(positions, n)
+		}
+		kindName = c.Reader.Kind + "/nth-call/" + c.Reader.FaultKind
+	}
+	for _, k := range positions {
 		cc := *c
-		cc.Reader.FaultAt = k
+		if c.Reader.FaultCall == -2 {
+			cc.Reader.FaultCall = k
+		} else {
+			cc.Reader.FaultAt = k
+		}
 		o := RunParse(t, &cc, s, false)
 		live.Subs = append(live.Subs, c10Sub{K: k, Obs: o})
 		agg.Res.Steps += o.Res.Steps
@@ -197,6 +226,7 @@ func (c10) reference(t *testing.T, c *Case, s Sched, live *c10Live) {
 	rc.Reader = gosim.ReaderPlan{Kind: "scanner", FaultAt: -1}
 	o := RunParse(t, &rc, s, false)
 	live.Extent = o.PosAfterDrain
+	live.Reads = o.ReaderReads
 	live.ReadEOF = o.ReaderEOFs > 0
 	live.FreeErr = !o.ErrNil
 }
@@ -218,7 +248,11 @@ func (p c10) Judge(c *Case, obs []*Obs) []Finding {
 		for _, sub := range live.Subs {
 			o := sub.Obs
 			narrow := *c
-			narrow.Reader.FaultAt = sub.K
+			if c.Reader.FaultCall != 0 {
+				narrow.Reader.FaultCall = sub.K
+			} else {
+				narrow.Reader.FaultAt = sub.K
+			}
 			for _, f := range simFindings(o, i, gosim.VDeadlock, gosim.VStepBudget, gosim.VReaderBudget, gosim.VCallerPanic) {
 				f.Narrow = &narrow
 				add(f)
